@@ -65,7 +65,8 @@ pub fn run(run: &Run) {
     run.set_rule(
         "Generator: proptest strings for FreeformClass rich in spaces of every kind next to 1-4-byte characters, characters whose NFKC introduces \
          spaces or further mappable characters (pool computed with ICU4X at start-up), compatibility characters, composing sequences; all-space \
-         strings; every pair (c1,c2) of characters whose NFKC contains a space combined with 5 templates (exhaustive) to reach multi-round inputs; \
+         strings; every pair (c1,c2) of characters whose NFKC contains a space combined with 5 templates (exhaustive) and triples in 2 templates to reach multi-round inputs; ALL strings of length <= 4 (quick) / 5 (thorough) \
+         over a 28-character alphabet (spaces, NFKC-space producers, composing pairs, compatibility jamo whose NFKC is disallowed); \
          fixed corner cases. Oracle: model round r = (non-empty; FreeformClass reference scan; Zs16->SPACE, trim, collapse; ICU4X NFKC; non-empty), \
          enforce = reference stabilize(r) (first application + 3 re-applications); prepare returns the input; every accepted result e satisfies r(e)=e \
          in the model and prepare/additional_mapping_rule/normalization_rule of the implementation leave e unchanged (case preserved by the model). \
@@ -89,6 +90,39 @@ pub fn run(run: &Run) {
                     if check(run, &s, l).is_err() {
                         shrink_report(run, Prof::Nick, Op::Enforce, &s);
                         return;
+                    }
+                }
+            }
+        }
+    });
+    enum_strings(run, "enum_alpha_free", &ALPHA_FREE, run.pick(4u32, 5u32), &|s, l| {
+        if check(run, s, l).is_err() {
+            shrink_report(run, Prof::Nick, Op::Enforce, s);
+            shrink_report(run, Prof::Nick, Op::Prepare, s);
+            return false;
+        }
+        true
+    });
+    // triples of NFKC-space producers (thorough: all; quick: every 7th) in two templates
+    let stride = run.pick(7usize, 1usize);
+    run.par("nfkc_space_triples", stride == 1, |tid, n, l| {
+        let mut idx = 0usize;
+        for a in ns.iter() {
+            for b in ns.iter() {
+                for c in ns.iter() {
+                    idx += 1;
+                    if idx % n != tid || (idx / n) % stride != 0 {
+                        continue;
+                    }
+                    if idx % 4096 < n && run.stopped() {
+                        return;
+                    }
+                    for s in [format!("{a}{b}{c}"), format!("{a}x{b} {c}")] {
+                        l.cases += 1;
+                        if check(run, &s, l).is_err() {
+                            shrink_report(run, Prof::Nick, Op::Enforce, &s);
+                            return;
+                        }
                     }
                 }
             }
